@@ -25,10 +25,12 @@ import (
 	"encoding/json"
 	"errors"
 	"net/http"
+	"net/url"
 	"sort"
 	"time"
 
 	"connectrpc.com/connect"
+	"google.golang.org/protobuf/proto"
 )
 
 // VerifHTTPStatusCodeFromRPC wraps httpStatusCodeFromRPC.
@@ -296,4 +298,43 @@ func (t *Transcoder) VerifRouteMatch(uriPath, httpMethod string) (methodPath, bo
 		vars = append(vars, resolveFieldDescriptorsToPath(vm.fields, false)+"="+vm.value)
 	}
 	return target.config.methodPath, target.requestBodyFieldPath, target.responseBodyFieldPath, vars, true
+}
+
+// VerifRESTEncode converts msg to the REST request of the method's HTTP rule
+// (methodConfig.httpRule), as the transcoder does for a REST backend: request
+// line from restServerProtocol.requestLine (httpEncodePathValues) and body from
+// restServerProtocol.prepareMarshalledRequest with the JSON codec.
+func (t *Transcoder) VerifRESTEncode(methodPath string, msg proto.Message) (escapedPath, rawQuery, httpMethod string, hasBody bool, body []byte, err error) {
+	conf := t.methods[methodPath]
+	if conf == nil || conf.httpRule == nil {
+		return "", "", "", false, nil, errors.New("no such method or no HTTP rule")
+	}
+	op := &operation{methodConf: conf, restTarget: conf.httpRule}
+	op.server.codec = NewJSONCodec(conf.resolver)
+	escapedPath, rawQuery, httpMethod, hasBody, err = restServerProtocol{}.requestLine(op, msg)
+	if err != nil || !hasBody {
+		return escapedPath, rawQuery, httpMethod, hasBody, nil, err
+	}
+	body, err = restServerProtocol{}.prepareMarshalledRequest(op, nil, msg, http.Header{})
+	return escapedPath, rawQuery, httpMethod, hasBody, body, err
+}
+
+// VerifRESTDecode routes (httpMethod, escapedPath) like resolveMethod does for a
+// REST client and runs restClientProtocol.prepareUnmarshalledRequest (body with
+// the JSON codec, then path variables, then query parameters) into a new
+// request message of the matched method.
+func (t *Transcoder) VerifRESTDecode(httpMethod, escapedPath, rawQuery string, body []byte) (methodPath string, msg proto.Message, err error) {
+	target, vars, _ := t.restRoutes.match(escapedPath, httpMethod)
+	if target == nil {
+		return "", nil, errNotFound
+	}
+	conf := target.config
+	op := &operation{
+		request:    &http.Request{Method: httpMethod, URL: &url.URL{RawQuery: rawQuery}, Header: http.Header{}},
+		methodConf: conf, restTarget: target, restVars: vars, reqContentType: "application/json",
+	}
+	op.client.codec = NewJSONCodec(conf.resolver)
+	msg = conf.requestType.New().Interface()
+	err = restClientProtocol{}.prepareUnmarshalledRequest(op, body, msg)
+	return conf.methodPath, msg, err
 }
